@@ -327,6 +327,7 @@ Ltac mgo :=
   | |- forall _, _ => intro; cbv beta; mgo
   | |- mono _ (bindM _ _) => apply mono_bind; mgo
   | |- mono _ (match ?x with _ => _ end) => destruct x; mgo
+  | |- mono _ (let _ := _ in _) => cbv zeta; mgo
   | |- mono _ _ =>
       first [ mprim; try exact _
             | solve [auto with mono]
